@@ -185,7 +185,9 @@ impl ImpactOutput {
                 body = std::str::from_utf8(&b1).unwrap();
             }
 
-            let should_log_request = action.should_log_request(true, final_status_code, Some(&mut unit_trace));
+            // A proxy asks with the status the client receives: the one of the backend when no rule changed it
+            let response_status_code = if final_status_code != 0 { final_status_code } else { backend_status_code };
+            let should_log_request = action.should_log_request(true, response_status_code, Some(&mut unit_trace));
 
             unit_trace.squash_with_target_unit_traces();
 
